@@ -215,20 +215,63 @@ def evaluate(res, prop, w, with_model=True):
             res.coverage['traces_validated_against_impl'] = len(o2) - len(dis)
     return fails
 
+def parse_case_line(line):
+    """PAIR/HIST line of a workload -> (case id, shape id, meta tuple as gen_workload records it)"""
+    t = line.split()
+    cid, sid = t[1], t[2]
+    def between(a, b):
+        i = t.index(a, 3); j = t.index(b, i + 1) if b else len(t)
+        return ' '.join(t[i + 1:j])
+    if t[0] == 'PAIR':
+        sub = [int(x) for x in t[t.index('SUB', 3) + 1:]]
+        return cid, sid, (sid, G.parse_vtext(between('A', 'B')), G.parse_vtext(between('B', 'X')), G.parse_vtext(between('X', 'C')), sub)
+    if t[0] == 'HIST':
+        body = ' '.join(t[3:])
+        parts = body.split(' ST ')
+        f0 = G.parse_vtext(parts[0].split(' ', 1)[1])
+        return cid, sid, (sid, [G.parse_vtext(x) for x in parts[1:]], f0)
+    raise ValueError(line[:80])
+
+def replay(res, prop, path):
+    """rebuild the generated type of the recorded case against /repo's current tree, run it and re-apply the oracle:
+    exit 1 (and the messages) while the recorded input still violates the property, exit 0 once it no longer does"""
+    r = json.load(open(path))
+    if r.get('kind') != 'failing-input':
+        print(json.dumps(r, indent=1)[:3000]); print('no failing input recorded in this replay file (broken proof obligation or correspondence): re-run the check itself')
+        return 1
+    lines = [l for l in r['case'].split('\n') if l.strip()]
+    shl = lines[0].split()
+    shapes = [(shl[1], int(shl[2]), G.parse_shape(shl[3]))]
+    if lines[1].startswith('SET'):
+        print('setter case: replay with ./check C15 --replay'); return 1
+    cid, sid, m = parse_case_line(lines[1])
+    dg = build_dg(res, shapes, tag='dg_replay', setters=True)
+    if not dg:
+        print('the generated crate does not build:', res.broken[:1]); return 1
+    f = os.path.join(WORK, f'replay_derive_{os.getpid()}.txt'); open(f, 'w').write('\n'.join(lines[:2]) + '\n')
+    rc, impl = run_lines([dg, f]); os.unlink(f)
+    obs, hfails = split_oracle(impl)
+    by = {shapes[0][0]: (shapes[0][1], shapes[0][2])}
+    obs = canon_impl_lines(obs, by, {cid: m})
+    print('\n'.join(lines[:2])); print('\n'.join(obs))
+    o = {}
+    for l in obs:
+        p = l.split(' ', 2)
+        if len(p) >= 2 and p[0] == cid: o[p[1]] = p[2] if len(p) == 3 else ''
+    sh = shapes[0][2]
+    msgs = O.check_pair(prop, sh, m[1], m[2], m[3], m[4], o) if cid.startswith('p') else O.check_hist(prop, sh, m[1], m[2], o)
+    if prop == 'C06': msgs += hfails
+    for x in msgs: print(f"REPLAY-FAIL property={prop} {x}")
+    if msgs:
+        print(f"VIOLATION property={prop} replay={path}"); return 1
+    print(f"replay: the recorded input no longer violates {prop}")
+    return 0
+
 def main(prop, rule, targets):
     a = std_args()
     res = Result(prop, a.tier, a.seed)
     if a.replay:
-        r = json.load(open(a.replay)); print(json.dumps(r, indent=1))
-        if r.get('kind') != 'failing-input': return 1
-        lines = r['case'].split('\n')
-        shl = lines[0].split()
-        shapes = [(shl[1], int(shl[2]), G.parse_shape(shl[3]))]
-        dg = build_dg(res, shapes, tag='dg_replay')
-        if not dg: return 1
-        f = os.path.join(WORK, 'replay_derive.txt'); open(f, 'w').write('\n'.join(lines) + '\n')
-        rc, impl = run_lines([dg, f]); print('\n'.join(impl))
-        return 0
+        return replay(res, prop, a.replay)
     step_translate(res, ['ordered'])
     step_proofs(res, prop, targets)
     if a.tier == 'thorough':
